@@ -27,8 +27,14 @@ use std::panic::{catch_unwind, AssertUnwindSafe};
 use std::sync::atomic::{AtomicBool, AtomicU64, AtomicUsize, Ordering};
 use std::sync::{Arc, Condvar, Mutex};
 
+pub mod ext;
 pub mod rng;
 pub use rng::Rng;
+
+/// System index carried in a task tag (`(sid + 1) << 8 | phase`), 0 when there is none.
+pub fn tag_sid(info: u64) -> usize {
+    ((info >> 8) & 0xffff_ffff) as usize
+}
 
 pub type TaskId = usize;
 
@@ -178,15 +184,21 @@ fn cur() -> Option<(Arc<Sim>, TaskId)> {
 }
 
 pub fn in_sim() -> bool {
-    CUR.with(|c| c.borrow().is_some())
+    ext::ACTIVE.load(Ordering::Relaxed) || CUR.with(|c| c.borrow().is_some())
 }
 
 pub fn current_task() -> Option<TaskId> {
+    if ext::ACTIVE.load(Ordering::Relaxed) {
+        return Some(ext::current_task());
+    }
     CUR.with(|c| c.borrow().as_ref().map(|x| x.1))
 }
 
 /// The scheduler's step counter ("simulated time"). Monotonic over a run.
 pub fn now() -> u64 {
+    if ext::ACTIVE.load(Ordering::Relaxed) {
+        return ext::steps();
+    }
     match cur() {
         Some((sim, _)) => sim.st.lock().unwrap().steps,
         None => GLOBAL_STEP.load(Ordering::Relaxed),
@@ -244,7 +256,7 @@ fn os_spawn(job: Box<dyn FnOnce() + Send>) {
 
 // ------------------------------------------------------------------------------------------------
 
-fn payload_str(p: &(dyn Any + Send)) -> String {
+pub(crate) fn payload_str(p: &(dyn Any + Send)) -> String {
     if let Some(s) = p.downcast_ref::<&'static str>() {
         s.to_string()
     } else if let Some(s) = p.downcast_ref::<String>() {
@@ -407,7 +419,7 @@ fn make_report(st: &State, outcome: Outcome) -> Report {
     }
 }
 
-fn fatal(rep: &Report) {
+pub(crate) fn fatal(rep: &Report) {
     let g = FATAL.lock().unwrap();
     if let Some(f) = g.as_ref() {
         f(rep);
@@ -516,6 +528,9 @@ pub fn spawn(name: &'static str, f: Box<dyn FnOnce() + Send + 'static>) -> TaskI
 
 /// Scheduler point.
 pub fn yield_point() {
+    if ext::ACTIVE.load(Ordering::Relaxed) {
+        return ext::yield_with_info(0);
+    }
     if PASSTHROUGH.load(Ordering::Relaxed) {
         GLOBAL_STEP.fetch_add(1, Ordering::Relaxed);
         std::thread::yield_now();
@@ -530,7 +545,7 @@ pub fn yield_point() {
 
 /// Set the tag strategies see for the current task.
 pub fn set_info(info: u64) {
-    if PASSTHROUGH.load(Ordering::Relaxed) {
+    if PASSTHROUGH.load(Ordering::Relaxed) || ext::ACTIVE.load(Ordering::Relaxed) {
         return;
     }
     let Some((sim, me)) = cur() else { return };
@@ -540,6 +555,9 @@ pub fn set_info(info: u64) {
 
 /// Scheduler point that also updates the tag first.
 pub fn yield_with_info(info: u64) {
+    if ext::ACTIVE.load(Ordering::Relaxed) {
+        return ext::yield_with_info(info);
+    }
     if PASSTHROUGH.load(Ordering::Relaxed) {
         GLOBAL_STEP.fetch_add(1, Ordering::Relaxed);
         std::thread::yield_now();
@@ -557,6 +575,9 @@ pub fn yield_with_info(info: u64) {
 /// scheduling decision, under the scheduler lock; it must only read state that
 /// is modified by baton holders.
 pub fn block_until(desc: &'static str, cond: impl Fn() -> bool + Send + 'static) {
+    if ext::ACTIVE.load(Ordering::Relaxed) {
+        return ext::block_until(desc, cond);
+    }
     if PASSTHROUGH.load(Ordering::Relaxed) || !in_sim() {
         while !cond() {
             std::thread::yield_now();
@@ -574,6 +595,9 @@ pub fn block_until(desc: &'static str, cond: impl Fn() -> bool + Send + 'static)
 pub fn choose(tag: u32, n: usize) -> usize {
     if n <= 1 {
         return 0;
+    }
+    if ext::ACTIVE.load(Ordering::Relaxed) {
+        return ext::choose(tag, n);
     }
     if PASSTHROUGH.load(Ordering::Relaxed) {
         return (GLOBAL_STEP.fetch_add(1, Ordering::Relaxed) as usize) % n;
@@ -608,7 +632,7 @@ pub fn detached<R>(
     at_return: impl FnOnce() + 'static,
     call: impl FnOnce() -> R,
 ) -> R {
-    if PASSTHROUGH.load(Ordering::Relaxed) || !in_sim() {
+    if PASSTHROUGH.load(Ordering::Relaxed) || ext::ACTIVE.load(Ordering::Relaxed) || !in_sim() {
         let r = call();
         at_return();
         return r;
@@ -665,6 +689,9 @@ fn reattach_if_detached() {
 
 /// Record a panic that escaped somewhere it must not (e.g. a detached pool job).
 pub fn record_escaped(msg: String) {
+    if ext::ACTIVE.load(Ordering::Relaxed) {
+        return ext::record_escaped(msg);
+    }
     if let Some((sim, _)) = cur() {
         sim.st.lock().unwrap().escaped.push(msg);
     }
